@@ -113,7 +113,11 @@ def quartet(ops):
         out = resulting(res[0], res[1], ops[r][0], ops[r][1])
     else:
         out = resulting(ops[r][0], ops[r][1], res[0], res[1])
-    return q, min(costs), out, v
+    # does the selected inner triplet itself come out in pairing order != its declared order?
+    inner_declared = free_labels([ops[a][0], ops[b][0], ops[c][0]])
+    # under C++14 all four branches are instantiated: does ANY sub-triplet come out in an order other than its declared one?
+    any_sub = any(list(info[k][1][0]) != free_labels([ops[x][0] for x in subs[k][:3]]) for k in range(4))
+    return q, min(costs), out, v, (1 if list(res[0]) != inner_declared else 0) + (2 if any_sub else 0)
 
 
 def model(lists, ext):
@@ -121,8 +125,8 @@ def model(lists, ext):
     if len(ops) == 3:
         v, mc, res, _ = triplet(ops)
         return v, mc, res[0], -1
-    q, mc, res, v = quartet(ops)
-    return q, mc, res[0], v
+    q, mc, res, v, flags = quartet(ops)
+    return q, mc, res[0], v + 10 * flags
 
 
 # ---------------------------------------------------------------------------------------------------------------------
@@ -377,18 +381,24 @@ def net_case(tier, cfg, t, entry, lists, ext, info, cls, tag):
     exts = [[ext[x] for x in l] for l in lists]
     free = free_labels(lists)
     v, mc, order, iv = info
+    inner_reordered = iv >= 0 and (iv // 10) % 2 == 1
+    any_sub_reordered = iv >= 0 and (iv // 10) >= 2
+    iv = iv % 10 if iv >= 0 else iv
     mode = mode_of(cfg)
     reordered = list(order) != list(free)
     stmp = ".scalar_tmp" if scalar_intermediate(lists) else ""
     if mode == "opmin":
-        route = f"net{n}.{cls}.v{v}" + (f".t{iv}" if n == 4 else "") + (".reordered" if reordered else ".inorder") + stmp
+        route = f"net{n}.{cls}.v{v}" + (f".t{iv}" + (".inner_reordered" if inner_reordered else "") if n == 4 else "") + \
+            (".reordered" if reordered else ".inorder") + stmp
         pred = [v, mc] + ([iv] if n == 4 else [])
     else:
         route = f"net{n}.{cls}.{mode}" + (stmp if mode == "dpfixed" else "")
-        pred = []
+        # FASTOR_KEEP_DP_FIXED: the cost model is still evaluated (and checked), only the dispatch ignores it
+        pred = ([v, mc] + ([iv] if n == 4 else [])) if mode == "dpfixed" else []
     names = "IJKL"[:n]; tn = "ABCD"[:n]
     ident = f"C15/{entry}{n}[{t}|" + ";".join(f"{names[k]}={','.join(map(str, lists[k]))}" for k in range(n)) + "|" + \
-        ";".join(f"{tn[k]}={','.join(map(str, exts[k]))}" for k in range(n)) + "]"
+        ";".join(f"{tn[k]}={','.join(map(str, exts[k]))}" for k in range(n)) + \
+        "|net=" + (("reordered" if reordered else ("subreordered" if any_sub_reordered else "inorder")) if mode == "opmin" else mode) + "]"
     E = 0 if entry == "einsum" else 1
     cap = 3.0e5 if tier == "quick" else 1.5e6
     body = spec_text(lists, exts, free, len(free), cap, pred, route) + \
@@ -400,7 +410,8 @@ def net_case(tier, cfg, t, entry, lists, ext, info, cls, tag):
         cost *= 0.6
     elif stmp and cfg.std == "14":
         cost = 3.0
-    return Case(ident, body, cost=cost, meta={"route": route, "variant": v, "reordered": reordered, "cls": cls, "tag": tag, "order": order})
+    return Case(ident, body, cost=cost, meta={"route": route, "variant": v, "reordered": reordered, "cls": cls, "tag": tag, "order": order,
+                                            "any_sub_reordered": any_sub_reordered})
 
 
 def scalar_intermediate(lists):
@@ -510,19 +521,30 @@ def cases(tier, cfg):
 
 
 def bounds(tier):
-    common = ("topologies = every (m_pq, f_p): number of labels shared by each operand pair and number of free labels per operand, ranks 1..3 for 3 "
-              "operands (all index-sharing multigraphs incl. disconnected ones) and 1..2 for 4 operands; labels shared inside one operand (traces) are "
-              "not enumerated here (C03 covers them pairwise); arrangement a = [shared with earlier operands, free, shared with later operands] "
-              "(b = reversed, thorough); extents from {2,3,4,6} with loop volume <= 24000 and result <= 9000 elements: eq = all 3 (2 if too large), "
-              "v<k> = which_variant k cheapest with as many distinct free extents as possible, fe<k> = variant k cheapest with all free extents equal "
-              "(complete search over 4^L assignments for L<=6 labels, 3000 structured+pseudo-random assignments otherwise; a variant the search "
-              "never selects for a topology class is reported as a route gap); 4 operands of rank 3 (DESIGN: thorough chains/stars) not enumerated: "
-              "~0.8-1 s per instantiation does not fit the budget")
+    common = ("topologies = every (m_pq, f_p): number of labels shared by each operand pair and number of free labels per operand - 257 for 3 operands "
+              "of rank 1..3 (104 connected: chains with each centre, cycles, with/without multi-edges and free labels; 153 disconnected) and 366 for 4 "
+              "operands of rank 1..2 (75 connected: chains, cycles; 291 disconnected); labels repeated inside one operand (traces) are not enumerated "
+              "here (C03 covers them pairwise); arrangement a = [shared with earlier operands, free, shared with later operands] (b = reversed, "
+              "thorough on A2); extents from {2,3,4,6} with loop volume <= 24000 and result <= 9000 elements: eq = all 3 (2 if too large), v<k> = "
+              "which_variant k cheapest with as many distinct free extents as possible, fe<k> = variant k cheapest with all free extents equal; the "
+              "search is over the extent products of the label roles (complete up to ~1500 role-product combinations per topology, strided beyond) "
+              "with closed forms of the flop model, every chosen assignment re-evaluated with the general re-implementation and checked in the case "
+              "against triplet/quartet_flop_cost::which_variant and ::min_cost (quartets: also the inner triplet's variant); a (class, variant) the "
+              "search never selects is listed under route_gaps (e.g. pairing two operands that share nothing is never strictly cheapest: ties go to "
+              "the earlier pairing); networks with a rank-0 intermediate (known compile rejects under C++14, ~3 s of attribution each) are "
+              "instantiated once per topology: all 3-operand ones, 4-operand ones of total rank <=5 (quick) / all on S2 (thorough); 4 operands of "
+              "rank 3 (DESIGN: thorough chains/stars) are not enumerated: 0.8-1 s per instantiation does not fit the budget; the C15_NO_SHIM builds "
+              "hold one case each that records that <Fastor/Fastor.h> itself does not compile with FASTOR_DONT_PERFORM_OP_MIN (all other op-min-off "
+              "builds pre-declare the missing einsum_helper template in harness/c15.h)")
     if tier == "quick":
-        return ("S2, A5 (op-min on) + S2 with FASTOR_DONT_PERFORM_OP_MIN; f64 on every (topology, assignment), f32/i32 on one assignment per topology; "
-                "fe<k> only where the model predicts a reordered result; contraction<> entry on 3-operand eq assignments. " + common)
-    return ("S2, A2, A5 op-min on; S2, A2, A5 with FASTOR_DONT_PERFORM_OP_MIN; A2 with FASTOR_KEEP_DP_FIXED; A5 C++17; f64 on every (topology, "
-            "arrangement, assignment), f32/i32 (i64 on A2) on rotating assignments; " + common)
+        return ("S2 op-min on: connected topologies eq + every v<k> + fe<k> where a reordered result is predicted; disconnected 3-operand: eq + the "
+                "reordered v<k> + one in-order v<k> + one fe<k>; disconnected 4-operand: eq + one (reordered if any) v<k>; f32/i32 on one rotating "
+                "assignment per connected topology; contraction<> on connected 3-operand eq. A5 op-min on: every v<k> of the connected topologies + one "
+                "v<k> of the disconnected 3-operand ones. S2 + FASTOR_DONT_PERFORM_OP_MIN: eq + one v<k> (4-operand disconnected: eq). " + common)
+    return ("S2, A2, A5 op-min on: every assignment (eq, v<k>, fe<k>) of the connected topologies, eq + v<k> + reordered fe<k> of the disconnected ones, "
+            "f32/i32 (i64 on A2) on rotating assignments, contraction<> on connected eq; A2 additionally arrangement b (v<k>); S2, A2, A5 with "
+            "FASTOR_DONT_PERFORM_OP_MIN: eq + one v<k> + one fe<k>; A2 with FASTOR_KEEP_DP_FIXED: eq + v<k> (+ one fe<k>) connected, eq + one v<k> "
+            "disconnected; A5 C++17 (only the selected pairing is instantiated): v<k> connected, eq + one v<k> disconnected. " + common)
 
 
 def expected_routes(tier):
@@ -542,7 +564,8 @@ def _outcome(r):
         d = r.detail
         if "match_indices_from" in d or "size_t [0]" in d or "before deduction of" in d:
             return "reject.rank0_intermediate"
-        if "throw-expression" in d or "dimension mismatch" in d:
+        if "throw-expression" in d or "dimension mismatch" in d or "no matching function for call to ‘inner(" in d:
+            # an intermediate that came out in pairing order is used with the index list / tensor type of the declared order
             return "reject.dimension_mismatch"
         if "einsum_helper" in d:
             return "reject.header"
@@ -568,7 +591,8 @@ def finalize(run, cov):
         if "cls" not in m:
             continue
         mode = mode_of(r.cfg)
-        key = m["route"] + ("" if mode == "opmin" else "") + ("|c++17" if r.cfg.std == "17" else "")
+        key = m["route"] + (".some_subtriplet_reordered" if m.get("any_sub_reordered") and mode == "opmin" else "") + \
+            ("|c++17" if r.cfg.std == "17" else "")
         c = cells.setdefault(key, {})
         o = _outcome(r)
         c[o] = c.get(o, 0) + 1
